@@ -7,6 +7,7 @@ replay.  `known` witnesses are expected NOT to hold (KNOWN-FINDING lines).
 
 usage: python witnesses.py [id ...]   -> prints one JSON line per witness
 """
+import io
 import sys, json, gc, typing as t, enum, re, warnings, collections
 warnings.simplefilter('ignore')
 
@@ -262,6 +263,16 @@ def D23():
     b = _outcome(lambda: pane.into_data(Color.RED, t.Union[int, Color]))
     holds = a == ('ok', Color.RED) and b == ('ok', 'red') and type(b[1]) is str
     return holds, f"class Color(str, Enum): convert(Color.RED, Color) -> {a!r}; into_data(Color.RED, Union[int, Color]) -> {b!r}"
+
+
+def D25():
+    import pane
+    r1 = _outcome(lambda: pane.into_data(pane.from_data(None, type(None)), type(None)))
+    r2 = _outcome(lambda: pane.into_data(pane.from_data(1, t.Literal[1, 'a']), t.Literal[1, 'a']))
+    buf = io.StringIO()
+    r3 = _outcome(lambda: pane.io.write_json(None, buf, ty=type(None)))
+    holds = r1[:2] == ('ok', None) and r2[:2] == ('ok', 1) and r3[0] == 'ok'
+    return holds, f"into_data(x, T) at top level for T = NoneType / Literal: {r1[:2]!r}, {r2[:2]!r}; write_json(None, f, ty=NoneType): {r3[:2]!r}"
 
 
 def D24():
